@@ -741,10 +741,29 @@ func Inlinable(f *ssa.Function) bool {
 		return false
 	}
 	n := f.Name()
-	if n == "" || !(n[0] >= 'a' && n[0] <= 'z') {
-		return false
+	if f.Parent() == nil && (n == "" || !(n[0] >= 'a' && n[0] <= 'z')) {
+		return false // exported functions keep their identity; closures are part of their parent
 	}
 	return !inlineBusy[f]
+}
+
+// SubstFree replaces the free-variable tokens of a closure's descriptor by
+// the caller's descriptors of the bound variables.
+func (d *Describer) SubstFree(callee ssa.Value, desc string) string {
+	mc, ok := callee.(*ssa.MakeClosure)
+	if !ok || !strings.Contains(desc, "free(") {
+		return desc
+	}
+	fn, _ := mc.Fn.(*ssa.Function)
+	if fn == nil {
+		return desc
+	}
+	for i, fv := range fn.FreeVars {
+		if i < len(mc.Bindings) {
+			desc = strings.ReplaceAll(desc, "free("+fv.Name()+")", d.val(mc.Bindings[i], 1))
+		}
+	}
+	return desc
 }
 
 var paramTok = regexp.MustCompile(`\bP(\d+)\b`)
@@ -752,7 +771,43 @@ var paramTok = regexp.MustCompile(`\bP(\d+)\b`)
 // SubstParams replaces the parameter tokens P<i> of a callee descriptor by the
 // caller's argument descriptors.
 func SubstParams(desc string, args []string) string {
-	return ResortSymmetric(substParams(desc, args))
+	return ResortSymmetric(lenOfLocal(substParams(desc, args)))
+}
+
+// lenOfLocal: after a substitution, `len(buf{…})` / `cap(buf{…})` of a buffer
+// assembled in the caller is `len(local)`, as it is when described in place.
+func lenOfLocal(desc string) string {
+	for _, fn := range []string{"len", "cap"} {
+		pat := fn + "(buf{"
+		from := 0
+		for {
+			i := strings.Index(desc[from:], pat)
+			if i < 0 {
+				break
+			}
+			i += from
+			// closing brace of buf{…}
+			depth, end := 0, -1
+			for k := i + len(pat) - 1; k < len(desc); k++ {
+				if desc[k] == '{' {
+					depth++
+				} else if desc[k] == '}' {
+					depth--
+					if depth == 0 {
+						end = k
+						break
+					}
+				}
+			}
+			if end < 0 || end+1 >= len(desc) || desc[end+1] != ')' {
+				from = i + len(pat)
+				continue
+			}
+			desc = desc[:i] + fn + "(local)" + desc[end+2:]
+			from = i
+		}
+	}
+	return desc
 }
 
 // ResortSymmetric re-sorts the two operands of a top-level symmetric predicate
@@ -908,8 +963,24 @@ func (d *Describer) inlineHelper(c *ssa.CallCommon, k int, depth int) (string, b
 	for _, a := range c.Args {
 		args = append(args, d.val(a, depth+1))
 	}
-	return SubstParams(body, args), true
+	out := d.SubstFree(c.Value, SubstParams(body, args))
+	if uninformative(out) {
+		// a verdict that is only a local flag / constants says nothing: keep the call itself as the key
+		return "", false
+	}
+	return out, true
 }
+
+var uninfTok = regexp.MustCompile(`alloc\([^()]*\)|phi[{~]|[{}|!]|\b(true|false|nil|zero)\b|-?\b\d+\b(:\w+)?|isnil\(|\)|\s`)
+
+// uninformative: the descriptor names no parameter, field, call or global — only local cells,
+// merges and constants.
+func uninformative(desc string) bool {
+	return strings.TrimSpace(uninfTok.ReplaceAllString(desc, "")) == ""
+}
+
+// Uninformative is exported for the gate tables.
+func Uninformative(desc string) bool { return uninformative(desc) }
 
 func isErrT(t types.Type) bool { return types.Identical(t, types.Universe.Lookup("error").Type()) }
 
